@@ -42,3 +42,55 @@ Theorem C01_forward_preserves_message : forall c d m s,
   buf_at (enqueue c d m s) d = buf_at s d ++ [m] \/ (length (bufs s) <= Z.to_nat d)%nat.
 Proof. exact forward_preserves_message. Qed.
 Print Assumptions C01_forward_preserves_message.
+
+
+(* CONSERVATION INSIDE A RANK.  [enq] is the ghost record of every (rank, message) pair ever appended to a send buffer
+   (asyncs of the main program and of handlers, broadcast legs, messages forwarded for other ranks).  When the
+   destructor's barrier of a rank has returned, the pairs its MPI_Isend calls put on the wire are exactly those
+   pairs, each once, addressed to the rank it was queued for: nothing is lost, duplicated, re-addressed or invented
+   between async() / forwarding and the wire - for every program with in-range destinations, every oracle, every
+   capacity, routing scheme and execution length.  (The wire side is what the lock-step replay compares with the
+   real library, buffer by buffer.) *)
+From Coq Require Import Permutation.
+From Ygm Require Import RankNoErr RankConserve.
+Theorem C01_rank_conserves : forall c nr fuel main orc s',
+  (0 <= c_cap c)%Z ->
+  (forall d, rng nr d -> rng nr (next_hop c d)) ->
+  Forall (rng nr) (locals_of c) ->
+  Forall (rng nr) (Bcast.remote_partners_spec (c_n c) (c_p c) (c_me c)) ->
+  (forall u, forallb (hact_ok nr) (c_hprog c u) = true) ->
+  (forall i, forallb (dests_ok nr) (c_cbprog c i) = true) ->
+  forallb (dests_ok nr) main = true ->
+  Forall (resp_ok nr) orc ->
+  run_rank fuel c nr main orc = Ok s' ->
+  Permutation (enq s') (sent_of (log s')).
+Proof. exact rank_conserves. Qed.
+Print Assumptions C01_rank_conserves.
+
+(* in every reachable state (not only at the end): queued = sent + still buffered, as multisets *)
+Theorem C01_queued_is_sent_plus_buffered : forall c nr,
+  (forall d, rng nr d -> rng nr (next_hop c d)) ->
+  Forall (rng nr) (locals_of c) ->
+  Forall (rng nr) (Bcast.remote_partners_spec (c_n c) (c_p c) (c_me c)) ->
+  (forall u, forallb (dests_ok nr) (c_hprog c u) = true) ->
+  (forall i, forallb (dests_ok nr) (c_cbprog c i) = true) ->
+  forall fu p s, specC c nr fu p s.
+Proof. exact conserve_all. Qed.
+Print Assumptions C01_queued_is_sent_plus_buffered.
+
+(* one async contributes exactly its own message, addressed to the next hop towards its destination *)
+Theorem C01_async_enqueues_exactly_its_message : forall c fuel m s,
+  (3 <= fuel)%nat -> inprq s = false -> (pend s <= c_cap c)%Z -> (sbb s + wire c m <= c_cap c)%Z ->
+  exists s', run fuel c (PAsync m) s = Ok s' /\ enq s' = (next_hop c (mdest m), m) :: enq s /\ log s' = log s.
+Proof. exact async_enqueues_exactly_its_message. Qed.
+Print Assumptions C01_async_enqueues_exactly_its_message.
+
+(* non-vacuity: a complete run (status Ok) of a rank that sends one message and forwards nothing *)
+Local Open Scope Z_scope.
+Definition c1 : cfg := {| c_n := 2; c_p := 1; c_me := 0; c_routing := 0; c_cap := 16; c_nisw := 4; c_freq := 0;
+  c_hprog := fun _ => []; c_cbprog := fun _ => [] |}.
+Example C01_conservation_not_vacuous :
+  exists s, run_rank 1000 c1 2 [AAsync 1 7 40] [RTestSend true; RTestRecv None; RTestRecv None; RWaitIR (Some (1, 1)) None; RWaitIR (Some (1, 1)) None] = Ok s
+            /\ enq s = [(1, {| uid := 7; mdest := 1; stage := 0; hk := 0; len := 40; extra := 0 |})]
+            /\ sent_of (log s) = enq s.
+Proof. eexists. split; [vm_compute; reflexivity|]. split; reflexivity. Qed.
